@@ -199,7 +199,7 @@ def _disp_paths(ctx, cls, read_raises=False):
                            "sel.close": lambda I, run, a, k, n: (run.effect("sel.close", (), node=n), NONE)[1],
                            "read_callback": read_cb, "check_callback": lambda I, run, a, k, n: (run.effect("check_callback", a, node=n), TRUE)[1],
                            "rawsock.pending": pending})
-    I = Interp(idx, Config(stubs=st, loop_unroll=3))
+    I = Interp(idx, Config(stubs=st, loop_unroll=5 if ctx.tier == "thorough" else 3, max_paths=200000))
 
     def body(run):
         app = new_obj(run, None, "app", keep_running=TRUE, sock=new_obj(run, None, "appsock", sock=Sym("rawsock", "obj")))
